@@ -21,7 +21,11 @@ RULE = ("X = the last dataset of a generated program (callbacks, effects, overlo
         "recursive overlay (P wins, D yields, sections merged key by key); keys(o) of the wrapped object must be "
         "sufficient (restricting o to them preserves the outcome); and o and every layer dictionary must be deep-equal "
         "to their snapshots after evaluate, validate, keys and explain. Non-trivial = two of {o, layer dictionaries} share "
-        "a section with different sub-keys, or the stack has >=2 layers; distinct = distinct (spec, layers, o) hash.")
+        "a section with different sub-keys, or the stack has >=2 layers; distinct = distinct (spec, layers, o) hash. part "
+        "'siblings': two or three objects derived from ONE dataset object (with_options / with_default_options, mostly "
+        "giving the same key different values; shared cache) used in a generated order with validate/keys/explain "
+        "interleaved: every step must equal a fresh plain X on that step's overlay. Non-trivial there = the siblings "
+        "disagree on a leaf and the history switches between them.")
 ASSUMPTIONS = [
     "independent overlay in vlib/universe.py (overlay)",
     "stacked dataset-level layers of the same direction (options= then with_options, ...) are generated without "
@@ -208,7 +212,103 @@ def cases(draw, prof):
     return {"spec": spec, "layers": layers, "options": o}
 
 
+def check_siblings(case, ctx):
+    """Several long-lived objects derived from ONE dataset object (shared cache, shared overloads), used in turn."""
+    spec = specgen.normalise(case["spec"], ctx.flags | {"no-allopts"}, ctx)
+    sib_layers, hist = case["siblings"], case["history"]
+    spec = copy.deepcopy(spec)
+    x = spec["defs"][-1]
+    x.pop("options", None)
+    x.pop("default_options", None)
+    if "no-coalesce-value-failure" in ctx.flags:
+        pspec = copy.deepcopy(spec)
+        pspec["root"] = {"k": "ref", "name": x["name"]}
+        if any("coalesce-absorbed-value-failure" in Ref(pspec).run(effective(sib_layers[i], o)).labels for i, o in hist):
+            ctx.exclude("no-coalesce-value-failure")
+            ctx.done(case, False, ["excluded-K6"])
+            return
+    b = build(spec)
+    base = b.ds[x["name"]]
+    sibs, held = [], []
+    for layers in sib_layers:
+        obj = base
+        for ly in reversed(layers):
+            d = copy.deepcopy(ly["opts"])
+            obj = obj.with_options(d) if ly["how"] == "with_options" else obj.with_default_options(d)
+            held.append((d, ly["opts"]))
+        sibs.append(obj)
+    labels = set()
+    seen = set()
+    for step, (i, o) in enumerate(hist):
+        eff = effective(sib_layers[i], o)
+        live = copy.deepcopy(o)
+        op = case["ops"][step % len(case["ops"])]
+        if op != "evaluate":
+            run(getattr(sibs[i], op), copy.deepcopy(o))
+        got = run(sibs[i].evaluate, live)
+        exp = run(plain(spec).evaluate, eff)
+        if got.ok != exp.ok or (got.ok and got.value != exp.value):
+            raise Violation("overlay-depends-on-sibling", f"objects derived from one dataset with {sib_layers}; history {hist[:step + 1]} (object index, o): step {step} "
+                                                          f"gives {got!r} but a fresh plain X on the overlay {eff} gives {exp!r}")
+        if sem.typed(live) != sem.typed(o):
+            raise Violation("caller-dict-mutated", f"evaluate changed the caller's dictionary {o} -> {live}")
+        for d, orig in held:
+            if sem.typed(d) != sem.typed(orig):
+                raise Violation("preset-dict-mutated", f"a pre-set/default dictionary changed {orig} -> {d}")
+        if seen and i not in seen:
+            labels.add("switched-sibling")
+        seen.add(i)
+    same_leaf = False
+    for a in range(len(sib_layers)):
+        for c in range(a + 1, len(sib_layers)):
+            la = {k: v for ly in sib_layers[a] for k, v in leaves(ly["opts"]).items()}
+            lc = {k: v for ly in sib_layers[c] for k, v in leaves(ly["opts"]).items()}
+            if any(k in lc and lc[k] != la[k] for k in la):
+                same_leaf = True
+    if same_leaf:
+        labels.add("siblings-disagree-on-a-leaf")
+    ctx.done(case, same_leaf and "switched-sibling" in labels, labels)
+
+
+@st.composite
+def sibling_cases(draw, prof):
+    spec = draw(specgen.specs(prof))
+    keys = specgen.mentioned_keys(spec)
+    focus = sorted(k for k in keys if k in U.VALUE_KEYS + U.DISPATCH_KEYS + [U.THRESH]) or ["A"]
+    # siblings mostly give different values to the SAME key in the same direction
+    hot = draw(st.sampled_from(focus))
+    how_hot = draw(st.sampled_from(["with_options", "with_default_options", "with_default_options"]))
+
+    def val(k):
+        if k in U.DISPATCH_KEYS:
+            return draw(st.sampled_from(U.HASHABLE_DISPATCH))
+        if k == U.THRESH:
+            return draw(st.sampled_from(U.THRESH_VALUES))
+        return draw(U.leaf_value(k, True))
+    sibs = []
+    for _ in range(draw(st.integers(2, 3))):
+        layers = [{"how": how_hot, "opts": U.nest({hot: val(hot)})}]
+        if draw(st.integers(0, 2)) == 0:
+            k2 = draw(st.sampled_from(focus))
+            if not related(k2, hot):
+                layers.insert(draw(st.integers(0, 1)), {"how": draw(st.sampled_from(["with_options", "with_default_options"])), "opts": U.nest({k2: val(k2)})})
+        sibs.append(layers)
+    if draw(st.integers(0, 3)) == 0:
+        sibs.append([])      # the base object itself takes part
+    o = draw(U.option_dicts(p_present=draw(st.sampled_from([0.6, 0.9]))))
+    if draw(st.booleans()):
+        o = U.dotted_del(o, hot)     # the caller leaves the contested key to the defaults
+    hist = []
+    for _ in range(draw(st.integers(2, 5))):
+        if hist and draw(st.integers(0, 2)) == 0:
+            o, _ = draw(U.edit_dict(o, allow_unmentioned=False, focus=focus))
+        hist.append((draw(st.integers(0, len(sibs) - 1)), o))
+    return {"spec": spec, "siblings": sibs, "history": hist,
+            "ops": draw(st.lists(st.sampled_from(["evaluate", "evaluate", "validate", "keys", "explain"]), min_size=1, max_size=3))}
+
+
 PROFILE = specgen.profile(depth=2, domain_rate=0.01)
 PARTS = [
     Part("layers", check, strategy=lambda ctx: cases(PROFILE), budget={"quick": 450, "thorough": 2000}),
+    Part("siblings", check_siblings, strategy=lambda ctx: sibling_cases(PROFILE), budget={"quick": 300, "thorough": 1500}),
 ]
